@@ -24,6 +24,9 @@ type property struct {
 
 var registry = map[string]*property{}
 
+// verifDir is the /verif directory (specification tables, evidence); set from the -verif flag.
+var verifDir = "/verif"
+
 func register(p *property) { registry[p.ID] = p }
 
 func main() {
@@ -36,6 +39,7 @@ func main() {
 	list := flag.Bool("list", false, "list obligations")
 	patch := flag.String("patch", "", "unified diff applied as overlay (development aid: prints failed obligations, writes no evidence)")
 	flag.Parse()
+	verifDir = *verif
 	if *patch != "" {
 		abs, _ := filepath.Abs(*patch)
 		ov, skip := overlayFor("/", *repo, variant{Patch: abs})
